@@ -55,20 +55,139 @@ def lyotBackward (stop : List K) (Pb : List (List K)) (m1 : List K) (Pf : List (
 def sandwich (Pb : List (List K)) (m : List K) (Pf : List (List K)) : Term K :=
   .comp (.matrix Pb) (.comp (.mulField m) (.matrix Pf))
 
-/-- `MultiScaleCoronagraph` (vortex, FQPM): the coarse Fourier filter plus one sandwich per finer
-level. -/
+/-- an optional pointwise factor: a Lyot stop / apodizer that may be `None` in the code. -/
+def optMul : Option (List K) → Term K
+  | some m => .mulField m
+  | none => .id
+
+/-- `MultiScaleCoronagraph` (vortex, FQPM) without its Lyot stop: the coarse Fourier filter plus one
+sandwich per finer level. -/
 def multiscale (F0 : List (List K)) : List (List (List K) × List K × List (List K)) → Term K
   | [] => .matrix F0
   | (Pb, m, Pf) :: rest => .add (multiscale F0 rest) (sandwich Pb m Pf)
 
-/-- `OpticalSystem`, wavefront-sensor optics, multi-layer atmosphere: composition in order. -/
+/-- `MultiScaleCoronagraph.forward`: `lyot_stop.forward(…)` applied last when there is a stop. -/
+def multiscaleForward (stop : Option (List K)) (F0 : List (List K))
+    (levels : List (List (List K) × List K × List (List K))) : Term K :=
+  .comp (optMul stop) (multiscale F0 levels)
+
+/-- `MultiScaleCoronagraph.backward`: `lyot_stop.backward(wavefront)` applied first. -/
+def multiscaleBackward (stop : Option (List K)) (F0 : List (List K))
+    (levels : List (List (List K) × List K × List (List K))) : Term K :=
+  .comp (multiscale F0 levels) (optMul stop)
+
+/-- `OpticalSystem`, wavefront-sensor optics, multi-layer atmosphere: composition, first part first. -/
 def system : List (Term K) → Term K
   | [] => .id
   | t :: rest => .comp (system rest) t
 
-/-- `FiberNuller` and its subclasses: apodizer, propagator, then fibre injection. -/
-def fibreNuller (rows : List (List K)) (P : List (List K)) (apod : List K) : Term K :=
-  .comp (fibreForward rows) (.comp (.matrix P) (.mulField apod))
+/-- a system whose parts are given as dense matrices (the harness probes the exposed sub-elements). -/
+def systemDense (parts : List (List (List K))) : Term K := system (parts.map dense)
+
+/-- `FiberNuller.forward` and its subclasses: (optional) apodizer, propagator, then fibre injection. -/
+def fibreNuller (rows : List (List K)) (P : List (List K)) (apod : Option (List K)) : Term K :=
+  .comp (fibreForward rows) (.comp (.matrix P) (optMul apod))
+
+/-- `FiberNuller.backward`: fibre backward, propagator backward, (optional) apodizer backward. -/
+def fibreNullerBackward (apod : Option (List K)) (Pb : List (List K)) (B : List (List K)) : Term K :=
+  .comp (optMul apod) (.comp (.matrix Pb) (fibreBackward B))
+
+/-- `StepIndexFiber`: project on the LP modes (with the grid weights), apply the propagation phases,
+expand again. -/
+def fibreModes (Mc : List (List K)) (ph : List K) (Mh : List (List K)) (w : List K) : Term K :=
+  .comp (.matrix Mc) (.comp (.mulField ph) (.comp (.matrix Mh) (.mulField w)))
+
+/-! ### The family table: what the driver op `C06 denote-family` executes
+
+The harness names a family and supplies the element's exposed parameters as arguments; the *term* is
+built here, by `familyTerm`, from the schemas above — not in Python. -/
+
+inductive Family where
+  | pointwise | dense | fibreForward | fibreBackward | projection | lyotCore | lyotForward | lyotBackward
+  | sandwich | multiscaleForward | multiscaleBackward | system | fibreNuller | fibreNullerBackward
+  | fibreModes
+  deriving DecidableEq, Repr
+
+def Family.all : List Family :=
+  [.pointwise, .dense, .fibreForward, .fibreBackward, .projection, .lyotCore, .lyotForward, .lyotBackward,
+   .sandwich, .multiscaleForward, .multiscaleBackward, .system, .fibreNuller, .fibreNullerBackward, .fibreModes]
+
+def Family.name : Family → String
+  | .pointwise => "pointwise" | .dense => "dense" | .fibreForward => "fibreForward"
+  | .fibreBackward => "fibreBackward" | .projection => "projection" | .lyotCore => "lyotCore"
+  | .lyotForward => "lyotForward" | .lyotBackward => "lyotBackward" | .sandwich => "sandwich"
+  | .multiscaleForward => "multiscaleForward" | .multiscaleBackward => "multiscaleBackward"
+  | .system => "system" | .fibreNuller => "fibreNuller" | .fibreNullerBackward => "fibreNullerBackward"
+  | .fibreModes => "fibreModes"
+
+def Family.ofString? (s : String) : Option Family := Family.all.find? (·.name == s)
+
+/-- does the code conjugate the incoming field in this family? (`some true` parity expected) -/
+def Family.conj : Family → Bool
+  | .fibreForward => true
+  | .fibreNuller => true
+  | _ => false
+
+/-- An argument of a family: a vector, a matrix (rows), or an absent optional part. -/
+inductive Arg (K : Type) where
+  | vec (v : List K)
+  | mat (A : List (List K))
+  | none
+
+def optVec : Arg K → Option (Option (List K))
+  | .vec v => some (some v)
+  | .none => some none
+  | .mat _ => none
+
+def levelsOf : List (Arg K) → Option (List (List (List K) × List K × List (List K)))
+  | [] => some []
+  | .mat Pb :: .vec m :: .mat Pf :: rest =>
+    match levelsOf rest with
+    | some l => some ((Pb, m, Pf) :: l)
+    | none => none
+  | _ => none
+
+def matsOf : List (Arg K) → Option (List (List (List K)))
+  | [] => some []
+  | .mat A :: rest =>
+    match matsOf rest with
+    | some l => some (A :: l)
+    | none => none
+  | _ => none
+
+/-- The term of family `f` for the given arguments; `none` when the arguments do not fit. -/
+def familyTerm : Family → List (Arg K) → Option (Term K)
+  | .pointwise, [.vec m] => some (pointwise m)
+  | .dense, [.mat A] => some (dense A)
+  | .fibreForward, [.mat rows] => some (fibreForward rows)
+  | .fibreBackward, [.mat A] => some (fibreBackward A)
+  | .projection, [.mat T, .vec c, .mat Ti] => some (projection T c Ti)
+  | .lyotCore, [.mat Pb, .vec m1, .mat Pf] => some (lyotCore Pb m1 Pf)
+  | .lyotForward, [.vec stop, .mat Pb, .vec m1, .mat Pf] => some (lyotForward stop Pb m1 Pf)
+  | .lyotBackward, [.vec stop, .mat Pb, .vec m1, .mat Pf] => some (lyotBackward stop Pb m1 Pf)
+  | .sandwich, [.mat Pb, .vec m, .mat Pf] => some (sandwich Pb m Pf)
+  | .multiscaleForward, s :: .mat F0 :: rest =>
+    match optVec s, levelsOf rest with
+    | some stop, some levels => some (multiscaleForward stop F0 levels)
+    | _, _ => none
+  | .multiscaleBackward, s :: .mat F0 :: rest =>
+    match optVec s, levelsOf rest with
+    | some stop, some levels => some (multiscaleBackward stop F0 levels)
+    | _, _ => none
+  | .system, parts =>
+    match matsOf parts with
+    | some ms => some (systemDense ms)
+    | none => none
+  | .fibreNuller, [.mat rows, .mat P, s] =>
+    match optVec s with
+    | some apod => some (fibreNuller rows P apod)
+    | none => none
+  | .fibreNullerBackward, [s, .mat Pb, .mat B] =>
+    match optVec s with
+    | some apod => some (fibreNullerBackward apod Pb B)
+    | none => none
+  | .fibreModes, [.mat Mc, .vec ph, .mat Mh, .vec w] => some (fibreModes Mc ph Mh w)
+  | _, _ => none
 
 end Terms
 
